@@ -140,6 +140,14 @@ func (f FeeEstimateInfo) Estimate(estimator chainfee.Estimator,
 
 	// If a maxFeeRate is specified and the estimated fee rate is above the
 	// maximum allowed fee rate, default to the max fee rate.
+	// The cap itself must be relayable, otherwise there is no fee rate
+	// that is both within the cap and accepted by the network.
+	if maxFeeRate != 0 && maxFeeRate < minFeeRate {
+		return 0, fmt.Errorf("%w: max fee rate %v is below the "+
+			"minimum of %v", ErrFeePreferenceTooLow, maxFeeRate,
+			minFeeRate)
+	}
+
 	if maxFeeRate != 0 && feeRate > maxFeeRate {
 		log.Warnf("Estimated fee rate %v exceeds max allowed fee "+
 			"rate %v, using max fee rate instead", feeRate,
